@@ -108,6 +108,7 @@ int main(int argc, char **argv) {
         else if (d.init == "zero") v = d.e.fp ? cfpAV(0, d.e.esz) : AV::Int(0, d.e.esz);
         else if (d.init == "ints") v = AV::Int(c < (int64_t)d.ints.size() ? d.ints[c] : 0, d.e.esz);
         else if (d.init == "fps") v = cfpAV(c < (int64_t)d.fps.size() ? d.fps[c] : 0, d.e.esz);
+        else if (d.init == "rats") { int64_t nn = 2 * c < (int64_t)d.ints.size() ? d.ints[2 * c] : 0, dd = 2 * c + 1 < (int64_t)d.ints.size() ? d.ints[2 * c + 1] : 1; v = dd == 1 ? cfpAV((double)nn, d.e.esz) : AV::Tm(TT.mk(TT.OP_RATC, {}, nn, (int)dd), d.e.esz, true); }
         else if (d.init == "undef") continue;
         else { setupErrors.push_back("bad init " + d.init); break; }
         I.setCell(d.id, c * d.e.esz, v, d.e.esz);
